@@ -60,7 +60,7 @@ def check_props(cfg, log):
     # compile into a scratch copy so that parallel checks never race on the .vo
     scratch = os.path.join(GEN, "PropsCheck_%s.v" % cfg["id"])
     shutil.copyfile(path, scratch)
-    rc, out = sh(["coqc", "-Q", COQ, "CSS", scratch], cwd=COQ, timeout=cfg.get("props_timeout_s", 900))
+    rc, out = sh(["coqc", "-noglob", "-Q", COQ, "CSS", scratch], cwd=COQ, timeout=cfg.get("props_timeout_s", 900))
     log.append(("props check", rc, out[-4000:]))
     assumptions = {}
     # output of `Print Assumptions thm.` follows in order
@@ -106,7 +106,7 @@ def run_translator(cfg, log):
     nob = 0
     info = {}
     for vf in tr.get("compile", []):
-        rc, o = sh(["coqc", "-Q", COQ, "CSS", os.path.join(COQ, vf)], cwd=COQ, timeout=tr.get("coq_timeout_s", 900))
+        rc, o = sh(["coqc", "-noglob", "-Q", COQ, "CSS", os.path.join(COQ, vf)], cwd=COQ, timeout=tr.get("coq_timeout_s", 900))
         log.append(("generated " + vf, rc, o[-6000:]))
         for m in re.finditer(r"OBLIGATION\s+(\S+)\s+(ok|FAILED)(.*)", o):
             nob += 1
@@ -161,7 +161,7 @@ def run_shard(args):
     shard, timeout = args
     t0 = time.time()
     try:
-        rc, out = sh(["coqc", "-Q", COQ, "CSS", os.path.join(GEN, shard + ".v")], cwd=COQ, timeout=timeout)
+        rc, out = sh(["coqc", "-noglob", "-Q", COQ, "CSS", os.path.join(GEN, shard + ".v")], cwd=COQ, timeout=timeout)
     except subprocess.TimeoutExpired:
         return shard, None, "timeout", time.time() - t0
     flat = " ".join(out.split())
